@@ -123,6 +123,12 @@ func (e *encoderState) reset(b []byte, w io.Writer, opts ...Options) {
 	}
 	opts2 := jsonopts.Struct{} // avoid mutating e.Struct in case it is part of opts
 	opts2.Join(opts...)
+	if opts2.Flags.Get(jsonflags.WithinArshalCall) {
+		// The options stem from the Options method of another coder that is
+		// being used within a user-defined marshal or unmarshal call.
+		// Flags that track the state of that call do not apply to this coder.
+		opts2.Flags.Clear(jsonflags.WithinArshalCall | jsonflags.OmitTopLevelNewline)
+	}
 	e.Struct = opts2
 	if e.Struct.Flags.Get(jsonflags.Multiline) {
 		e.Struct.InitializeMultiline()
